@@ -81,7 +81,7 @@ def corruptions(traces):
     out = []
 
     def variant(expect, f):
-        v = copy.deepcopy({k: t[k] for k in ("id", "lossless", "snaps", "raw", "lang")})
+        v = copy.deepcopy({k: t[k] for k in ("id", "lossless", "truncated", "order", "snaps", "raw", "lang")})
         v["id"] = 900000 + len(out)
         f(v)
         out.append((expect, v))
